@@ -21,15 +21,14 @@ def C05():
     from units import gen
     parts = [ProofPart(uf, 'UF(eqlog-runtime)', {'which': 0}, native=uf_native(0)),
              ProofPart(uf, 'UF(eqlog)', {'which': 1}, native=uf_native(1)),
-             ProofPart(gen, 'GEN', native=gn),
-             ProofPart(gen, 'GEN-define', {'part': 'define'}, native=gn)]
+             ProofPart(gen, 'GEN', native=gn)]
     return {
         'level': 'proof', 'parts': parts,
-        'samples': uf.SAMPLES,
+        'samples': uf.SAMPLES, 'own_classes': C05_CLASSES,
         'assumptions': [
             'element type laws t_laws::<T>(): Into<u32>/From<u32> are mutually inverse and == is structural (true for the emitted newtypes)',
             'usize is 64 bit',
-            'define_*, the iterator queries and insert_* of the generated API are outside this unit (see DESIGN.md C05)',
+            'the iterator queries iter_* of the generated API are outside the proved set (adapter chains); bounded-checked by the native sweep',
         ],
     }
 
@@ -86,6 +85,12 @@ def C08():
     }
 
 
+# failure classes of the shared sweep of the emitted modules, by owning property
+C04_CLASSES = r'^(copy|typeset|newold|bounds|weights|iter-|query-|functional|enum-cases|fixpoint|panic)'
+C05_CLASSES = r'^(count|root|equality|visible|fresh|define-|panic)'
+C07_CLASSES = r'^(resume-|until-)'
+
+
 def gen_native():
     from kit import gen_native as GN
     seed = os.environ.get('VERIF_SEED', '0') or '0'
@@ -95,7 +100,10 @@ def gen_native():
                        'per type) followed by close, plus seeded random longer sequences; checked after every call: invariant, are_equal_ == the equivalence generated by the equate_ '
                        'calls (before the first close), root_ idempotent and in class, inserted tuples visible once while no equate_ happened since the last close, define_ returns the '
                        'existing value or a fresh element; after every close: iterators duplicate-free and canonical, one representative per class, point queries == iterators and '
-                       'invariant under equal arguments, functions single-valued, closing again changes nothing; every sequence is distinct and non-trivial (ends in close)')
+                       'invariant under equal arguments, functions single-valued, closing again changes nothing; C07: close_until with conditions "k-th evaluation" (k = 1..3) and '
+                       '"iter_<rel> yields >= n tuples": the return value equals the condition in the state returned, false only in a closed state, and after every close() / close_until() == false '
+                       'the model is isomorphic (fixing the caller\'s elements) to a fresh model on which the same assertions were replayed and closed once; '
+                       'every sequence is distinct and non-trivial (ends in close)')
 
 
 def C04():
@@ -103,7 +111,22 @@ def C04():
     gn = gen_native()
     return {
         'level': 'proof', 'parts': [ProofPart(gen, 'GEN', native=gn), ProofPart(gen, 'GEN-move', {'part': 'move'}, native=gn)], 'samples': gen.SAMPLES, 'always_native': True,
+        'own_classes': C04_CLASSES,
         'assumptions': gen.ASSUMPTIONS + ['the statements of C04 about the state AFTER close() (iterators, canonical elements, agreement of query paths) are covered by the bounded native sweep only'],
+    }
+
+
+def C07():
+    from units import genclose
+    gn = gen_native()
+    return {
+        'level': 'exploration', 'parts': [gn, ProofPart(genclose, 'GEN-close')], 'samples': genclose.SAMPLES, 'own_classes': C07_CLASSES,
+        'assumptions': [
+            'bounded: programs are the probe theories of /verif/probes (p5 has non-surjective rules, i.e. pending function definitions); operation sequences over 3 elements per type as stated in coverage.rule; never counted as proof',
+            'conditions: "the k-th evaluation" (k = 1, 2, 3: stops at entry, after one iteration, after two) for the resumption statement, and "iter_<rel> yields at least n tuples" (a condition over a public query) for the return-value statement',
+            '"exactly the closed model that a direct close() would have produced" is decided up to renaming of derived elements: a fresh model replays the assertions (no close_until, no intermediate close), is closed once, and an isomorphism is built from the caller\'s handles by propagation through the function graphs',
+            '"contains only elements, tuples and equalities of the free model" at an early return is covered only through the resumption statement (anything not in the free model survives into the final comparison)',
+        ] + ['GEN-close (proof part): ' + a for a in genclose.ASSUMPTIONS],
     }
 
 
@@ -176,7 +199,7 @@ def C18():
     }
 
 
-PROPERTIES = {'C04': C04, 'C05': C05, 'C14': C14, 'C08': C08, 'C16': C16, 'C18': C18, 'C11': C11}
+PROPERTIES = {'C04': C04, 'C05': C05, 'C07': C07, 'C14': C14, 'C08': C08, 'C16': C16, 'C18': C18, 'C11': C11}
 
 NATIVES = {'uf_0': lambda: uf_native(0), 'uf_1': lambda: uf_native(1), 'rt_wb': lambda: rt_native('wb'), 'rt_pt': lambda: rt_native('pt'), 'rt_ts': lambda: rt_native('ts'), 'sn': sn_native, 'sd': sd_native, 'gen': gen_native}
 
